@@ -404,7 +404,7 @@ func (c *Ctx) osConst(name string) int {
 
 func runC13(c *Ctx) {
 	p, r := c.P, c.R
-	r.Explanation = "Decides on every path of the three stock sinks: writer.Sink and FileSink acknowledge (nil, nil) only after writing a reader over exactly the bytes Event.Format returned for the configured format (JSON when unset), once — or once more after rewinding the same reader when the first write failed — with the sink mutex held for writing, with the (last) write's error tested nil; a missing format or a failing write is an error; FileSink's /dev/null returns (nil, nil) without touching a file and stdout/stderr select os.Stdout/os.Stderr; ChannelSink.Process is one blocking select with exactly three arms — send of the very event parameter on the sink's channel -> (nil, nil), <-ctx.Done() -> (nil, ctx.Err()), <-time.After(timeout) -> (nil, non-nil) — no default and no other blocking instruction. Behaviour of the supplied io.Writer and real-time bounds are not decided. C13.ctor: NewChannelSink stores exactly its arguments after both guards. C13.format Format:reads-table: Event.Format answers from the format table itself, under Event.l."
+	r.Explanation = "Decides on every path of the three stock sinks: writer.Sink and FileSink acknowledge (nil, nil) only after writing a reader over exactly the bytes Event.Format returned for the configured format (JSON when unset), once — or once more after rewinding the same reader when the first write failed — with the sink mutex held for writing, with the (last) write's error tested nil; a missing format or a failing write is an error; FileSink's /dev/null returns (nil, nil) without touching a file and stdout/stderr select os.Stdout/os.Stderr; ChannelSink.Process is one blocking select with exactly three arms — send of the very event parameter on the sink's channel -> (nil, nil), <-ctx.Done() -> (nil, ctx.Err()), <-time.After(timeout) -> (nil, non-nil) — no default and no other blocking instruction. Behaviour of the supplied io.Writer and real-time bounds are not decided. C13.ctor: NewChannelSink stores exactly its arguments after both guards. C13.format Format:reads-table: Event.Format answers from the format table itself, under Event.l. C13.recover: a recovered panic of a Writer reaches the error result."
 	r.NotDecided = []string{"behaviour of user-supplied io.Writers (short writes, buffering)", "real-time bounds of the timeout"}
 	c.lockControls()
 	// --- C13.writer
@@ -414,6 +414,7 @@ func runC13(c *Ctx) {
 	}
 	// --- C13.file
 	c.ruleFormatFromTable("C13.format")
+	c.ruleRecoverResults("C13.recover", []string{PkgRoot, PkgWriter, PkgChannel}, false)
 	if fn := c.Fn("C13.file", PkgRoot, "FileSink", "Process"); fn != nil {
 		c.ruleSinkAck("C13.file", fn, "eventlogger.FileSink.l", fileSinkWriter, fileSinkSpecial)
 		c.eNilRule("C13.file", fn, false)
@@ -512,7 +513,9 @@ func runC13(c *Ctx) {
 				case st.Dir == types.RecvOnly && ch.String() == "Call[invoke context.Context.Done](Param(1:ctx))":
 					kinds["done"]++
 					idxOf["done"] = i
-				case st.Dir == types.RecvOnly && ch.String() == "Call[time.After](Field[timeoutDuration](Param(0:c)))":
+				case st.Dir == types.RecvOnly && (ch.String() == "Call[time.After](Field[timeoutDuration](Param(0:c)))" ||
+					// ... or the channel of a timer made for this call: time.NewTimer(c.timeoutDuration).C
+					ch.String() == "Field[C](Call[time.NewTimer](Field[timeoutDuration](Param(0:c))))"):
 					kinds["timeout"]++
 					idxOf["timeout"] = i
 				default:
@@ -595,7 +598,7 @@ func runC13(c *Ctx) {
 
 func runC14(c *Ctx) {
 	p, r := c.P, c.R
-	r.Explanation = "Decides, for both JSON formatters (sibling implementations that must agree): the value encoded is a struct whose JSON members are exactly created_at, event_type and payload, filled from e.CreatedAt, e.Type and e.Payload; a json.Encoder over the formatter's own buffer is used (newline-terminated output) and FormattedAs(\"json\", buf.Bytes()) happens only on the err == nil edge of Encode, an encoding error yields (nil, err); no field of the event is assigned; JSONFormatterFilter forwards its event parameter iff the predicate is nil or returned (true, nil), (nil, nil) iff false, (nil, err) on error, and Filter likewise without the nil case; Event.Formatted is accessed only inside FormattedAs (under Event.l for writing) and Format (under Event.l for reading) or through freshly allocated events. JSON round-trip faithfulness for exotic payloads is encoding/json semantics and is not decided. C14.pred call: a stock node calls a func-typed configuration field only where it was found non-nil. C14.errors looks into a repository helper the encode failure is handed to: the helper must return a non-nil error whenever it is given one. C14.table pairing: every section of Event.l is released on every path. C14.table Format:reads-table: see C13.format."
+	r.Explanation = "Decides, for both JSON formatters (sibling implementations that must agree): the value encoded is a struct whose JSON members are exactly created_at, event_type and payload, filled from e.CreatedAt, e.Type and e.Payload; a json.Encoder over the formatter's own buffer is used (newline-terminated output) and FormattedAs(\"json\", buf.Bytes()) happens only on the err == nil edge of Encode, an encoding error yields (nil, err); no field of the event is assigned; JSONFormatterFilter forwards its event parameter iff the predicate is nil or returned (true, nil), (nil, nil) iff false, (nil, err) on error, and Filter likewise without the nil case; Event.Formatted is accessed only inside FormattedAs (under Event.l for writing) and Format (under Event.l for reading) or through freshly allocated events. JSON round-trip faithfulness for exotic payloads is encoding/json semantics and is not decided. C14.pred call: a stock node calls a func-typed configuration field only where it was found non-nil. C14.errors looks into a repository helper the encode failure is handed to: the helper must return a non-nil error whenever it is given one. C14.table pairing: every section of Event.l is released on every path. C14.table Format:reads-table: see C13.format. C14.recover: recover discipline over the root package. C14.guard: lock discipline over every field of Event."
 	r.NotDecided = []string{"round-trip faithfulness of encoding/json for arbitrary payloads (A4)"}
 	c.lockControls()
 	tb := p.NewTerms(nil)
@@ -883,6 +886,9 @@ func runC14(c *Ctx) {
 	// onto bytes that Format has already handed out
 	c.ruleFormatTableWrites("C14.table")
 	c.ruleFormatFromTable("C14.table")
+	// every field of Event, not only the table: a counter or memo added to Event and updated by Format (under the READ lock) is written by concurrent readers
+	c.guardRule("C14.guard", []string{"eventlogger.Event"}, nil, false)
+	c.ruleRecoverResults("C14.recover", []string{PkgRoot}, false)
 	// ... and every section of Event.l is released on every path (a read lock leaked on an early return blocks the next FormattedAs for good)
 	c.pairingRule("C14.table", func(fn *ssa.Function) bool {
 		return PkgPathOf(fn) == PkgRoot && fn.Signature.Recv() != nil && typeShort(fn.Signature.Recv().Type()) == "eventlogger.Event"
